@@ -13,6 +13,8 @@ import (
 	"os"
 	"strings"
 	"sync"
+	"sync/atomic"
+	"time"
 
 	"github.com/q191201771/lal/pkg/base"
 	"github.com/q191201771/lal/pkg/hls"
@@ -118,7 +120,24 @@ type W struct {
 	tick   uint32
 	nconn  int
 	Hooks  []*Hook // stream hook contexts created so far (when WithHook)
+	// relay environment (see relay.go)
+	relay    bool
+	DialMode map[string]string
+	Dials    []*Dial
+	dmu      sync.Mutex
+	closing  bool
+	// the server's clock (unix milliseconds); pkg/logic Group methods read it through group.verifNow
+	clockMs int64
 }
+
+// T0 is the instant every world starts at.
+const T0 = int64(1_700_000_000_000)
+
+// Now is this world's clock.
+func (w *W) Now() time.Time { return time.UnixMilli(atomic.LoadInt64(&w.clockMs)) }
+
+// Advance moves this world's clock.
+func (w *W) Advance(d time.Duration) { atomic.AddInt64(&w.clockMs, d.Milliseconds()) }
 
 // Hook records what the customize hook session sees.
 type Hook struct {
@@ -167,7 +186,23 @@ func New(c Conf) *W {
 	worldSeq++
 	id := worldSeq
 	buildMu.Unlock()
-	w := &W{Net: netsim.NewWorld(), Notify: &Notify{}, ID: id}
+	w := &W{Net: netsim.NewWorld(), Notify: &Notify{}, ID: id, clockMs: T0}
+	worlds.Store(id, w)
+	for k, v := range c { // "$W" in string values = this world's host prefix (relay addresses)
+		if sv, ok := v.(string); ok && strings.Contains(sv, "$W") {
+			c[k] = strings.ReplaceAll(sv, "$W", fmt.Sprintf("w%d", id))
+		}
+		if lv, ok := v.([]interface{}); ok {
+			nl := make([]interface{}, len(lv))
+			for i, e := range lv {
+				nl[i] = e
+				if sv, ok := e.(string); ok {
+					nl[i] = strings.ReplaceAll(sv, "$W", fmt.Sprintf("w%d", id))
+				}
+			}
+			c[k] = nl
+		}
+	}
 	withHook := false
 	if v, ok := c["_hook"]; ok {
 		withHook, _ = v.(bool)
@@ -187,6 +222,7 @@ func New(c Conf) *W {
 		o.ConfRawContent = raw
 		o.NotifyHandler = w.Notify
 	})
+	logic.VerifSetClock(w.SM, w.Now)
 	if withHook {
 		w.SM.WithOnHookSession(func(uniqueKey string, streamName string) logic.ICustomizeHookSessionContext {
 			h := &Hook{Key: uniqueKey, Stream: streamName}
@@ -208,24 +244,35 @@ func SyncQueues() {
 
 // Settle waits for quiescence and drains the notify worker.
 func (w *W) Settle() error {
-	if err := w.Net.Quiesce(); err != nil {
+	if w.relay {
+		if err := w.settleRelay(); err != nil {
+			return err
+		}
+	} else if err := w.Net.Quiesce(); err != nil {
 		return fmt.Errorf("%w: %s", err, w.Net.Describe())
 	}
 	logic.VerifNotifyDrain(w.SM)
 	return nil
 }
 
-// Tick runs the body of the server's 1 s timer case once.
+// Tick lets one second pass and runs the body of the server's 1 s timer case once.
 func (w *W) Tick() error {
+	w.Advance(time.Second)
 	w.SM.VerifTick(&w.tick)
 	return w.Settle()
 }
 
 // Close ends every goroutine of this world.
 func (w *W) Close() {
+	if w.relay {
+		w.closeRelay()
+	}
 	w.Net.Shutdown()
 	w.Net.Quiesce()
 	logic.VerifShutdown(w.SM)
+	logic.VerifSetClock(w.SM, nil)
+	logic.VerifRelayForget(w.SM)
+	worlds.Delete(w.ID)
 	if w.FS != nil {
 		fsRouter.Unregister(w.FS)
 	}
